@@ -902,6 +902,21 @@ impl<P: Pid> World for Ep<P> {
                     }
                 }
             }
+            // ... and the library lets it hand over QoS>0 publishes of a persistent session already
+            // (they are stored and go out behind the CONNACK)
+            if al.pub_any_status && version_known && m.exchanges() < c.window {
+                for &q in &al.pub_q {
+                    if q > 0 {
+                        for t in 0..al.topics.max(1) {
+                            for &a in &al.als {
+                                if matches!(a, Al::No) || (matches!(a, Al::Reg(_)) && self.v5()) {
+                                    v.push(Act::Pub { q, t: t as u8, al: a, fail: false });
+                                }
+                            }
+                        }
+                    }
+                }
+            }
             return v;
         }
         let local_ok = version_known && (m.st == St::Connected || al.pub_any_status);
@@ -913,7 +928,7 @@ impl<P: Pid> World for Ep<P> {
                             // contract: empty topic + alias only after an accepted registration on this connection
                             let ok = match a {
                                 Al::No => true,
-                                Al::Reg(_) => self.v5() && m.st == St::Connected,
+                                Al::Reg(_) => self.v5() && (m.st == St::Connected || (al.pub_any_status && m.st == St::Connecting)),
                                 Al::Use(x) => self.v5() && m.st == St::Connected && !c.auto_map && (m.app_alias.get(&x) == Some(&(t as u8)) || (al.use_unbound && t == 0 && !m.app_alias.contains_key(&x))),
                             };
                             if ok {
